@@ -32,8 +32,57 @@ def run(ctx):
     ctx.rule('C19.4', 'serde type errors quote the offending value: the Err of a typed deserialisation into a secret-bearing config type is a secret source (variant-precise) and must not reach a frame, a formatted message, a serialiser, a file or a diagnostics struct.')
     ctx.rule('C19.3', 'header values: every read of a `headers` slot of the config types either moves it into another config slot, hands name and value to RequestBuilder::header, or projects the names only (closure returning tuple field 0).')
 
+    # env readers: std::env::var / var_os and every workspace wrapper that hands one of its own
+    # parameters to a reader as the key and returns what it read — {path: index of the key argument}
+    ENV_READERS = {'std::env::var': 0, 'std::env::var_os': 0}
+    for _ in range(3):
+        for p_, g in P.fns.items():
+            if p_ in ENV_READERS or g.crate not in ('ripd', 'rip') or '{closure' in p_:
+                continue
+            for s_ in g.sites():
+                k = ENV_READERS.get(s_.callee)
+                if k is None or k >= len(s_.args):
+                    continue
+                kl = g.root_local(s_.args[k], through_calls=(r'::as_ref$', r'::deref$', r'::as_str$', r'::borrow$'))
+                if kl is not None and 1 <= kl <= g.argc:
+                    ENV_READERS[p_] = kl - 1
+
+    def secret_key(fn, op):
+        """is the key of an env lookup a secret reference? a constant *API_KEY, or the variable
+        name a config file points at (ApiKeySource::Env { env })."""
+        o = fn.origin(op, through_calls=(r'::as_ref$', r'::deref$', r'::as_str$', r'::borrow$'))
+        if o[0] == 'const' and str(o[1].get('str', '')).endswith('API_KEY'):
+            return 'env:' + o[1]['str']
+        if o[0] != 'const' and 'env' in fields_read(fn, op, 'ripd::config::ApiKeySource'):
+            return 'env:<the variable ApiKeySource::Env names>'
+        return None
+
+    def keyed_by_secret(path, depth=0):
+        """some caller passes a secret key (directly or through another reader) to this env reader."""
+        if depth > 3:
+            return None
+        k = ENV_READERS.get(path)
+        for g in P.fns.values():
+            for s_ in g.sites():
+                if s_.callee != path or k is None or k >= len(s_.args):
+                    continue
+                lab = secret_key(g, s_.args[k])
+                if lab:
+                    return lab
+                kl = g.root_local(s_.args[k], through_calls=(r'::as_ref$', r'::deref$', r'::as_str$', r'::borrow$'))
+                if kl is not None and 1 <= kl <= g.argc and g.path in ENV_READERS:
+                    lab = keyed_by_secret(g.path, depth + 1)
+                    if lab:
+                        return lab
+        return None
+
     def source_call(site):
         c = site.callee
+        if c in ENV_READERS and ENV_READERS[c] < len(site.args):
+            # a lookup keyed by a secret reference: the value AND the error are secret (VarError::NotUnicode quotes the value)
+            lab = secret_key(site.fn, site.args[ENV_READERS[c]])
+            if lab:
+                return lab
         if re.search(r'^serde_json::(value::from_value|value::de::from_value|de::from_str|de::from_slice|de::from_reader)$', c) and any(
                 any(g == t or g.startswith(t + '<') for t in BEARING) for g in site.ga):
             # serde *type* errors quote the offending value ("invalid type: string \"sk-...\""): the Err of a
@@ -121,6 +170,34 @@ def run(ctx):
     ntf = len([p for p in T.t if T.t[p]])
     ctx.ob('C19.1', 'workspace', 'secret-flows-examined', True, '%d functions read a secret slot / source (%s); taint reached %d function(s); %d sink operands examined; fixpoint in %d rounds' % (
         len(readers), ', '.join(x.rsplit('::', 2)[-2] + '::' + x.rsplit('::', 1)[-1] if '{closure' not in x else x.split('::{closure')[0].rsplit('::', 1)[-1] + '{..}' for x in sorted(readers)), ntf, sinks, T.rounds))
+
+    # ---------------------------------------------------------------- C19.5
+    ctx.rule('C19.5', 'env-reading helpers are as silent as their most secret caller: a workspace function that looks an environment variable up under a key it receives as a parameter, and that some caller uses for a *API_KEY / configured key reference, does not hand the looked-up value (or the lookup error) to a formatting argument, process output, a serialiser or a file write inside its own body.')
+    from ..prov import reads_locals
+    nh = 0
+    for hp in sorted(ENV_READERS):
+        h = P.fns.get(hp)
+        if h is None:
+            continue
+        lab = keyed_by_secret(hp)
+        if not lab:
+            continue
+        nh += 1
+        ctx.touch(h)
+        looked = [s_.dest['l'] for s_ in h.sites() if s_.callee in ENV_READERS]
+        leaks = []
+        for s_ in h.sites():
+            c = s_.callee
+            if re.search(r"^core::fmt::rt::Argument::<'_>::new_|^core::fmt::rt::Argument::new_", c) or re.search(r'^serde_json::(ser::to_|value::to_value)', c) \
+                    or re.search(r'^std::io::stdio::_e?print$|^tracing|^log::', c) or site_effects(s_) & {'FsWrite'} or re.search(r'std::io::Write>::write', c):
+                for a in s_.args:
+                    if reads_locals(h, a) & set(looked):
+                        leaks.append(s_)
+        ctx.ob('C19.5', h, 'env-helper-silent', not leaks,
+               '%s is called with %s; inside it the looked-up value / error %s' % (hp.rsplit('::', 1)[-1], lab, 'reaches no formatting, output, serialiser or file sink' if not leaks else
+                                                                                  'REACHES %s (line %d): the key value is printed for every variable this helper reads, the API key included' % (leaks[0].callee.rsplit('::', 1)[-1], leaks[0].line)),
+               line=leaks[0].line if leaks else h.line)
+    ctx.floor('C19.5', 'workspace env-reading helpers used for a secret key', nh, 1)
 
     # ---------------------------------------------------------------- C19.2
     bad = 0
